@@ -762,3 +762,123 @@ def replay(rep):  # noqa: F811
         print('replay: %s' % ('violation reproduced on the real code' if bad else 'not reproduced'))
         return 1 if bad else 0
     return _rp6(rep)
+
+
+# ---- totality (C04): bounded token-soup search for a panic / abort / hang on the real code --------------
+_TOT_WORDS = ['1', '2.5', '1e3', '1e-2', '0x1f', '0b101', '0o17', '"a b"', "'c'", 'm', 'kg', 's', 'ft', 'degC', '°F', 'kelvin',
+              '(', ')', '+', '-', '*', '/', '|', '^', '**', '%', 'to', '->', 'in', 'per', 'mod', 'and', 'or', 'xor', '<<', '>>',
+              '=', ',', ';', ':', '#2020-01-01#', '#now#', 'now', 'sqrt', 'sin', 'atan2', 'units', 'for', 'of', 'factorize', 'search',
+              'digits', 'base', 'hex', 'oct', 'bin', 'frac', 'sci', 'eng', '\\u{41}', "'\\u{zz}'", '"\\u{110000}"', '//c', '/*c*/', '/*',
+              'H2O', 'water', 'int', 'survey', '£', '€', '½', 'm²', 'e', '1e', '1e-', '0x', '1.', '.5', '_', '1_000', '—', '\\', '"',
+              "'", '#', '+05:30', '-99:99', 'EST', 'US/Pacific', 'ans', '0', '-0', '1/0', '0^-1', '%%', 'x', 'to digits', 'to base 37',
+              'to base 1', 'to digits 0', 'to digits 99', 'year', 'month', 'hour', 'googol', 'pi', 'tau', 'c', 'G', 'degF', 'bit', 'USD', 'percent']
+_TOT_SMALL = ['1', '(', ')', '+', '-', '*', '/', '|', '^', '%', 'to', 'm', 'degC', 'sqrt', ',', ';', 'mod', '<<', '#now#', 'of', '0', '=', '"a"', 'H2O', 'digits']
+
+
+def _tot_lines():
+    seen = set()
+    out = []
+
+    def add(x):
+        if x not in seen and len(x) <= 500:
+            seen.add(x)
+            out.append(x)
+    for a in _TOT_WORDS:
+        add(a)
+    for a in _TOT_WORDS:
+        for b in _TOT_WORDS:
+            add(a + ' ' + b)
+    for a in _TOT_SMALL:
+        for b in _TOT_SMALL:
+            for c in _TOT_SMALL:
+                add(a + ' ' + b + ' ' + c)
+                add(a + b + c)
+    # depth probes within one chat message
+    for tok, n in (('-', 200), ('(', 120), ('%', 200), ('+', 200), ('sqrt ', 90), ('1^', 120), ('m ', 200), ('1|', 150), ('- -', 150)):
+        add(tok * n + '1')
+    add('(' * 100 + '1' + ')' * 100)
+    return out
+
+
+def _tot_run(lines, timeout):
+    rc, so, se, dt = run([QUERY_BIN] + lines, timeout=timeout)
+    return rc, so, se
+
+
+def _tot_find(lines, timeout=120):
+    """-> (line, what) for the first line that panics / aborts / hangs, else None"""
+    rc, so, se = _tot_run(lines, timeout)
+    if rc == 0:
+        return None
+    if rc == 1 and 'PANIC' in so:
+        cur = None
+        for l in so.splitlines():
+            if l.startswith('> '):
+                cur = l[2:]
+            elif l.startswith('PANIC') and cur is not None:
+                return (cur, l)
+    if len(lines) == 1:
+        what = 'TIMEOUT after %ds' % timeout if rc == 124 else 'process died with status %s: %s' % (rc, one_line(se, 200))
+        return (lines[0], what)
+    mid = len(lines) // 2
+    r = _tot_find(lines[:mid], timeout)
+    if r:
+        return r
+    # a failure that needs the history of the first half: keep it
+    r = _tot_find(lines[mid:], timeout)
+    if r:
+        return r
+    return (' || '.join(lines[:3]) + ' ...', 'a history of %d lines fails (status %s) but neither half does' % (len(lines), rc))
+
+
+def _totality_witness():
+    if build_core() != 0:
+        return None
+    lines = _tot_lines()
+    B = 400
+    from concurrent.futures import ThreadPoolExecutor as _TPE
+    batches = [lines[i:i + B] for i in range(0, len(lines), B)]
+    with _TPE(max_workers=12) as ex:
+        for r in ex.map(_tot_find, batches):
+            if r:
+                return {'replayer': 'totality', 'input': {'query': r[0], 'expected': 'a reply or an error value'}, 'output': r[1],
+                        'why': 'the line %r makes the real evaluator %s' % (r[0], r[1]), 'cmd': '%s %r' % (QUERY_BIN, r[0])}
+    return None
+
+
+_sf7 = search_family
+
+
+def search_family(fam, prop):  # noqa: F811
+    if fam == 'totality':
+        return _totality_witness()
+    return _sf7(fam, prop)
+
+
+_fw8 = find_witness
+
+
+def find_witness(o, rep):  # noqa: F811
+    w = _fw8(o, rep)
+    if w:
+        return w
+    if rep.get('property') == 'C04':
+        return _totality_witness()
+    return None
+
+
+_rp8 = replay
+
+
+def replay(rep):  # noqa: F811
+    w = rep.get('replay') or {}
+    if w.get('replayer') == 'totality':
+        if build_core() != 0:
+            return 0
+        q = rep['input']['query']
+        r = _tot_find([q], 60)
+        print('> ' + q)
+        print(r[1] if r else 'a reply or an error value')
+        print('replay: %s' % ('violation reproduced on the real code' if r else 'not reproduced'))
+        return 1 if r else 0
+    return _rp8(rep)
